@@ -159,6 +159,69 @@ type SrvWorld struct {
 	PingsSent          int
 	peerGone           bool // the peer has closed its sending side
 	ctlQueue           [][]byte
+
+	// receive-side ledger of the peer (C06): SETTINGS_INITIAL_WINDOW_SIZE / MAX_FRAME_SIZE values the
+	// peer has sent, in order; ackedSettings of them have been acknowledged by the server
+	peerSettingsVals []peerSettingsVal
+	ackedSettings    int
+	ackedInitWin     int64
+	ackedMaxFrame    int64
+	streamWupd       map[uint32]int64 // stream WINDOW_UPDATE increments the peer has sent, per stream
+	LedgerViol       *Violation
+}
+
+type peerSettingsVal struct {
+	hasInit  bool
+	init     int64
+	hasFrame bool
+	frame    int64
+}
+
+// permissiveInit is the largest initial stream window the server may legitimately believe in.
+func (w *SrvWorld) permissiveInit() int64 {
+	m := w.ackedInitWin
+	for _, v := range w.peerSettingsVals[w.ackedSettings:] {
+		if v.hasInit && v.init > m {
+			m = v.init
+		}
+	}
+	return m
+}
+
+func (w *SrvWorld) permissiveMaxFrame() int64 {
+	m := w.ackedMaxFrame
+	for _, v := range w.peerSettingsVals[w.ackedSettings:] {
+		if v.hasFrame && v.frame > m {
+			m = v.frame
+		}
+	}
+	return m
+}
+
+func (w *SrvWorld) noteSettingsSent(kv [][2]uint32) {
+	var v peerSettingsVal
+	for _, s := range kv {
+		switch s[0] {
+		case 4:
+			v.hasInit, v.init = true, int64(s[1])
+		case 5:
+			v.hasFrame, v.frame = true, int64(s[1])
+		}
+	}
+	w.peerSettingsVals = append(w.peerSettingsVals, v)
+}
+
+func (w *SrvWorld) noteSettingsAcked() {
+	if w.ackedSettings < len(w.peerSettingsVals) {
+		v := w.peerSettingsVals[w.ackedSettings]
+		if v.hasInit {
+			w.ackedInitWin = v.init
+		}
+		if v.hasFrame {
+			w.ackedMaxFrame = v.frame
+		}
+	}
+	w.ackedSettings++
 }
 
 func kindMask(names []string) (m [8]bool) {
@@ -228,6 +291,13 @@ func NewSrvWorld(sim *Sim, plan *SrvPlan) *SrvWorld {
 	}
 	w.c2s.Inject(w.fw.Settings(st...))
 	w.SettingsSentByPeer = 1
+	w.ackedInitWin, w.ackedMaxFrame = 65535, 16384
+	w.streamWupd = map[uint32]int64{}
+	var first [][2]uint32
+	for _, x := range st {
+		first = append(first, [2]uint32{uint32(x.ID), x.Val})
+	}
+	w.noteSettingsSent(first)
 	if plan.Peer.ConnWindowBoost > 0 {
 		w.c2s.Inject(w.fw.WindowUpdate(0, plan.Peer.ConnWindowBoost))
 	}
@@ -438,6 +508,7 @@ func (w *SrvWorld) onPeerFrame(f *Frame) {
 	case FSettings:
 		if f.Ack {
 			w.SettingsAcks++
+			w.noteSettingsAcked()
 			return
 		}
 		w.SettingsSeen++
@@ -524,6 +595,7 @@ func (w *SrvWorld) onPeerFrame(f *Frame) {
 		ps.DataFrames++
 		ps.RecvBytes += int64(f.Len)
 		w.connRecv += int64(f.Len)
+		w.ledgerCheck(ps, f)
 		if f.EndStream {
 			ps.EndStreams++
 			ps.DoneAt = w.sim.Steps
@@ -532,7 +604,7 @@ func (w *SrvWorld) onPeerFrame(f *Frame) {
 			w.connGranted += int64(f.Len)
 			w.ctl(w.fw.WindowUpdate(0, uint32(f.Len)))
 			if !f.EndStream {
-				ps.Granted += int64(f.Len)
+				w.streamWupd[f.Stream] += int64(f.Len)
 				w.ctl(w.fw.WindowUpdate(f.Stream, uint32(f.Len)))
 			}
 		}
@@ -566,6 +638,35 @@ func (w *SrvWorld) flushCtl() {
 	w.ctlQueue = nil
 }
 
+// ledgerCheck is the C06 running inequality, evaluated on the server's output in order.
+func (w *SrvWorld) ledgerCheck(ps *PeerStream, f *Frame) {
+	if w.LedgerViol != nil {
+		return
+	}
+	mk := func(rule, d string) {
+		w.LedgerViol = &Violation{Property: "C06", Rule: rule, Sig: rule, Detail: fmt.Sprintf("stream %d, DATA frame #%d of the connection (len %d): %s", ps.ID, f.Seq, f.Len, d)}
+	}
+	if int64(f.Len) > w.permissiveMaxFrame() {
+		mk("frame-too-large", fmt.Sprintf("payload exceeds the peer's SETTINGS_MAX_FRAME_SIZE %d", w.permissiveMaxFrame()))
+		return
+	}
+	if f.Len == 0 {
+		return
+	}
+	if w.connRecv > w.connGranted {
+		mk("conn-window-overrun", fmt.Sprintf("connection total %d > granted %d", w.connRecv, w.connGranted))
+		return
+	}
+	allowed := w.permissiveInit() + w.streamWupd[ps.ID]
+	if ps.RecvBytes > allowed {
+		mk("stream-window-overrun", fmt.Sprintf("stream total %d > granted %d (initial %d in the most permissive reading + WINDOW_UPDATEs %d)", ps.RecvBytes, allowed, w.permissiveInit(), w.streamWupd[ps.ID]))
+		return
+	}
+	if w.connRecv == w.connGranted || ps.RecvBytes == allowed {
+		w.Probes["window-bound"]++
+	}
+}
+
 // SettingsSentByPeer counts SETTINGS (non-ACK) frames the peer has sent.
 func (w *SrvWorld) settingsSent() int { return w.SettingsSentByPeer }
 
@@ -591,6 +692,9 @@ func splitBlock(blk []byte, permille []int) [][]byte {
 }
 
 func (w *SrvWorld) refID(l *laneState, op *Op) uint32 {
+	if op.LaneRef > 0 {
+		return w.lanes[op.LaneRef-1].id
+	}
 	switch {
 	case op.StreamRef < 0:
 		return 0
@@ -639,6 +743,9 @@ func (w *SrvWorld) laneEnabled(l *laneState) bool {
 		}
 	}
 	op := &l.lane.Ops[l.next]
+	if op.LaneRef > 0 && w.lanes[op.LaneRef-1].id == 0 {
+		return false
+	}
 	switch op.Kind {
 	case "data":
 		if op.Len > 0 || op.Pad >= 0 {
@@ -680,7 +787,7 @@ func (w *SrvWorld) laneSend(l *laneState) {
 	l.next++
 	l.opsSent++
 	w.opsSent++
-	if l.id == 0 && l.lane.OpensStream && op.StreamRef == 0 && op.Kind != "settings" && op.Kind != "ping" && op.Kind != "goaway" {
+	if l.id == 0 && l.lane.OpensStream && op.StreamRef == 0 && op.LaneRef == 0 && op.Kind != "settings" && op.Kind != "ping" && op.Kind != "goaway" {
 		l.id = w.nextID
 		w.nextID += 2
 		l.sendWin = w.srvInitWin
@@ -759,10 +866,8 @@ func (w *SrvWorld) laneSend(l *laneState) {
 		if op.OnConn {
 			id = 0
 			w.connGranted += int64(op.Incr)
-		} else if ps := w.Streams[id]; ps != nil {
-			ps.Granted += int64(op.Incr)
 		} else {
-			w.stream(id).Granted += int64(op.Incr)
+			w.streamWupd[id] += int64(op.Incr)
 		}
 		w.c2s.Inject(w.fw.WindowUpdate(id, op.Incr))
 	case "priority":
@@ -780,6 +885,12 @@ func (w *SrvWorld) laneSend(l *laneState) {
 			st = append(st, xh2.Setting{ID: xh2.SettingID(kv[0]), Val: kv[1]})
 		}
 		w.SettingsSentByPeer++
+		w.noteSettingsSent(op.Settings)
+		for _, kv := range op.Settings {
+			if kv[0] == 1 {
+				w.dec.SetAllowedMaxDynamicTableSize(kv[1])
+			}
+		}
 		w.PeerSettingsLog = append(w.PeerSettingsLog, PeerSettingsEvent{Settings: op.Settings, SentAtFrame: len(w.Frames), Step: w.sim.Steps})
 		w.c2s.Inject(w.fw.Settings(st...))
 	case "ping":
@@ -852,6 +963,12 @@ func (w *SrvWorld) EnvActions() []Action {
 			acts = append(acts, Action{Name: "open-gate " + g.name, Run: func() { g.open = true; g.ch <- struct{}{} }, Env: true, Weight: wt})
 		}
 	}
+	// drain: the peer grants whatever the responses still need
+	if w.phase >= 1 && w.plan.Peer.DrainGrants && w.blockOwner == nil && !w.peerGone {
+		if a := w.drainGrantAction(); a != nil {
+			acts = append(acts, *a)
+		}
+	}
 	// faults
 	if w.phase == 0 {
 		for i, f := range w.plan.Faults {
@@ -863,6 +980,49 @@ func (w *SrvWorld) EnvActions() []Action {
 		}
 	}
 	return acts
+}
+
+// drainGrantAction tops the peer's receive windows up (connection, then every unfinished stream).
+func (w *SrvWorld) drainGrantAction() *Action {
+	const target = int64(1 << 28)
+	if avail := w.connGranted - w.connRecv; avail < target/2 {
+		inc := target - avail
+		return &Action{Name: fmt.Sprintf("drain-grant conn +%d", inc), Env: true, Run: func() {
+			w.connGranted += inc
+			w.c2s.Inject(w.fw.WindowUpdate(0, uint32(inc)))
+		}}
+	}
+	for _, l := range w.lanes {
+		if l.id == 0 || l.lane.Resp == nil {
+			continue
+		}
+		ps := w.Streams[l.id]
+		if ps != nil && (ps.EndStreams > 0 || len(ps.RST) > 0) {
+			continue
+		}
+		var recv int64
+		if ps != nil {
+			recv = ps.RecvBytes
+		}
+		// least window the server can believe in: acked initial (or any unacked lower one) + updates - received
+		lo := w.ackedInitWin
+		for _, v := range w.peerSettingsVals[w.ackedSettings:] {
+			if v.hasInit && v.init < lo {
+				lo = v.init
+			}
+		}
+		avail := lo + w.streamWupd[l.id] - recv
+		hi := w.permissiveInit() + w.streamWupd[l.id] - recv
+		if avail < target/2 && hi < target {
+			inc := target - hi
+			id := l.id
+			return &Action{Name: fmt.Sprintf("drain-grant stream %d +%d", id, inc), Env: true, Run: func() {
+				w.streamWupd[id] += inc
+				w.c2s.Inject(w.fw.WindowUpdate(id, uint32(inc)))
+			}}
+		}
+	}
+	return nil
 }
 
 func (w *SrvWorld) applyFault(f Fault) {
